@@ -65,6 +65,29 @@ pub fn vx_any<T, F: Fn(&T) -> bool>(v: &[T], f: F) -> (r: bool)
     false
 }
 
+/// `slice.iter().all(f)`: verified loop with a complete contract
+pub fn vx_all<T, F: Fn(&T) -> bool>(v: &[T], f: F) -> (r: bool)
+    requires forall|i: int| 0 <= i < v@.len() ==> call_requires(f, (&v@[i],)),
+    ensures
+        r ==> forall|i: int| #![trigger v@[i]] 0 <= i < v@.len() ==> call_ensures(f, (&v@[i],), true),
+        !r ==> exists|i: int| #![trigger v@[i]] 0 <= i < v@.len() && call_ensures(f, (&v@[i],), false),
+{
+    let mut k: usize = 0;
+    while k < v.len()
+        invariant
+            0 <= k <= v@.len(),
+            forall|i: int| 0 <= i < v@.len() ==> call_requires(f, (&v@[i],)),
+            forall|i: int| #![trigger v@[i]] 0 <= i < k ==> call_ensures(f, (&v@[i],), true),
+        decreases v@.len() - k,
+    {
+        if !f(&v[k]) {
+            return false;
+        }
+        k += 1;
+    }
+    true
+}
+
 /// R12: `m.iter().filter(p).map(|(k, v)| (*k, *v)).collect()` — the sub-map of the entries satisfying p (assumed
 /// std iterator semantics; the predicate closure stays verbatim at the call site and is verified there)
 #[verifier::external_body]
